@@ -61,6 +61,9 @@ Record ostep := mkOstep {
   os_vs : vs; os_cf : faults; os_df : faults;
   os_clog : list action; os_cres : result; os_cstore : smap cert;      (* store after the step *)
   os_dlog : list action; os_dres : result; os_dstore : smap dnsep;
+  os_ccache : option (smap cert);        (* the lister caches before the step, when they differ from the cluster *)
+  os_dcache : option (smap dnsep);
+  os_cache_mutated : bool;               (* the synchronization changed a lister-cache object in place *)
   os_unexpected : bool;                  (* an action elsewhere (other resource / namespace), a changed decoy, a panic *)
   os_fcert : option cert; os_fcres : result;   (* a first-time synchronization on an empty cluster *)
   os_fdns : option dnsep; os_fdres : result }.
@@ -77,13 +80,15 @@ Definition singleton {A} (name : A -> string) (o : option A) : smap A :=
 
 (* X: the model reproduces log, error class and store of both controllers, and the first-time objects *)
 Definition x_step (cs : cmpset) (prec : smap cert) (pred : smap dnsep) (s : ostep) : bool :=
-  let '(c', cl, cr) := sync_cert cs (ord_of (os_clog s)) (os_vs s) (os_cf s) prec in
-  let '(d', dl, dr) := sync_dns (os_vs s) (os_df s) pred in
+  let ccache := match os_ccache s with Some c => c | None => prec end in
+  let dcache := match os_dcache s with Some d => d | None => pred end in
+  let '(c', cl, cr) := sync_cert2 cs (ord_of (os_clog s)) (os_vs s) (os_cf s) ccache prec in
+  let '(d', dl, dr) := sync_dns2 (os_vs s) (os_df s) dcache pred in
   let '(fc, _, fcr) := sync_cert cs (fun l => l) (os_vs s) [] [] in
   let '(fd, _, fdr) := sync_dns (os_vs s) [] [] in
   store_eqb cert_eqb c' (os_cstore s) && list_eqb action_eqb cl (os_clog s) && result_eqb cr (os_cres s) &&
   store_eqb dnsep_eqb d' (os_dstore s) && list_eqb action_eqb dl (os_dlog s) && result_eqb dr (os_dres s) &&
-  negb (os_unexpected s) &&
+  negb (os_unexpected s) && negb (os_cache_mutated s) &&
   store_eqb cert_eqb fc (singleton c_name (os_fcert s)) && result_eqb fcr (os_fcres s) &&
   store_eqb dnsep_eqb fd (singleton d_name (os_fdns s)) && result_eqb fdr (os_fdres s).
 
@@ -187,6 +192,7 @@ Definition s_idem (prev : option (ostep * smap cert)) (s : ostep) : Z :=
 Record verdict := mkVerdict {
   vd_x_bad : Z;        (* index of the first step on which model and implementation disagree, -1 if none *)
   vd_foreign_bad : Z;  (* index of the first step that touches a foreign object, -1 if none *)
+  vd_cache_bad : Z;    (* index of the first step that wrote into a lister-cache object, -1 if none *)
   vd_idem : Z; vd_fresh_c : Z; vd_fresh_d : Z; vd_gc : Z;      (* or-ed masks over the steps *)
   vd_writes : Z; vd_tags : Z }.
 
@@ -213,6 +219,7 @@ Fixpoint walk (cs : cmpset) (i : Z) (prev : option (ostep * smap cert)) (prec : 
                  s_foreign d_owner dnsep_eqb uid pred (os_dstore s) (os_dlog s) && negb (os_unexpected s) in
       let acc' := {| vd_x_bad := if (vd_x_bad acc <? 0) && negb xok then i else vd_x_bad acc;
                      vd_foreign_bad := if (vd_foreign_bad acc <? 0) && negb fok then i else vd_foreign_bad acc;
+                     vd_cache_bad := if (vd_cache_bad acc <? 0) && os_cache_mutated s then i else vd_cache_bad acc;
                      vd_idem := Z.lor (vd_idem acc) (s_idem prev s);
                      vd_fresh_c := Z.lor (vd_fresh_c acc) (s_fresh_cert s prec);
                      vd_fresh_d := Z.lor (vd_fresh_d acc) (s_fresh_dns s pred);
@@ -223,9 +230,9 @@ Fixpoint walk (cs : cmpset) (i : Z) (prev : option (ostep * smap cert)) (prec : 
   end.
 
 (* row: [id; model agrees; spec holds; nontrivial; tags; first X-bad step; first foreign-bad step;
-         idem mask; fresh-cert mask; fresh-dns mask; gc mask; writes] *)
+         idem mask; fresh-cert mask; fresh-dns mask; gc mask; writes; first cache-mutating step] *)
 Definition c20_case (id : Z) (cs : cmpset) (initc : smap cert) (initd : smap dnsep) (steps : list ostep) : list Z :=
-  let v := walk cs 0 None initc initd steps (mkVerdict (-1) (-1) 0 0 0 0 0 0) in
-  let spec := (vd_foreign_bad v <? 0) && (vd_idem v =? 0) && (vd_fresh_c v =? 0) && (vd_fresh_d v =? 0) && (vd_gc v =? 0) in
+  let v := walk cs 0 None initc initd steps (mkVerdict (-1) (-1) (-1) 0 0 0 0 0 0) in
+  let spec := (vd_foreign_bad v <? 0) && (vd_cache_bad v <? 0) && (vd_idem v =? 0) && (vd_fresh_c v =? 0) && (vd_fresh_d v =? 0) && (vd_gc v =? 0) in
   [id; if vd_x_bad v <? 0 then 1 else 0; if spec then 1 else 0; if 0 <? vd_writes v then 1 else 0; vd_tags v;
-   vd_x_bad v; vd_foreign_bad v; vd_idem v; vd_fresh_c v; vd_fresh_d v; vd_gc v; vd_writes v].
+   vd_x_bad v; vd_foreign_bad v; vd_idem v; vd_fresh_c v; vd_fresh_d v; vd_gc v; vd_writes v; vd_cache_bad v].
